@@ -290,6 +290,23 @@ def _rxn_unsupported_member(rec, fmt, pick, empty=False):
     return rec, None
 
 
+def _v3000_defaults(rec, picks):
+    """V3000 atom lines with the default values written out (`CHG=0 RAD=0 MASS=0 CFG=0 VAL=0`), as some programs do."""
+    toks = [t for i, t in enumerate(('CHG=0', 'RAD=0', 'MASS=0', 'CFG=0', 'VAL=0')) if (picks >> i) & 1] or ['RAD=0']
+    out, inside = [], False
+    for ln in rec.split('\n'):
+        if ln.startswith('M  V30 BEGIN ATOM'):
+            inside = True
+        elif ln.startswith('M  V30 END ATOM'):
+            inside = False
+        elif inside and ln.startswith('M  V30 ') and not ln.endswith('-'):
+            for t in toks:
+                if t.split('=')[0] + '=' not in ln:
+                    ln += ' ' + t
+        out.append(ln)
+    return '\n'.join(out)
+
+
 def _bonds_sorted(rec, fmt, desc=False):
     """Bond block in the order most programs write it - by atom index - instead of chython's own (wedge bonds first).  The wedge
     of a stereo centre is then no longer the first bond line of its atom."""
@@ -448,6 +465,8 @@ def apply_foreign(fmt, text, extents, spec):
             rec, k = _rxn_unsupported_member(rec, fmt, spec.get('member', 0), bool(spec.get('empty')))
             if k is not None:
                 spec.setdefault('_dropped', {})[len(new_ext)] = k
+        if kind == 'v3000_defaults' and fmt in ('esdf', 'erdf'):
+            rec = _v3000_defaults(rec, int(spec.get('picks_mask', 2)))
         if kind == 'bonds_sorted' and fmt != 'mrv':
             rec = _bonds_sorted(rec, fmt, bool(spec.get('desc')))
         if kind == 'v2000extras' and fmt in ('sdf', 'rdf'):
@@ -1531,10 +1550,10 @@ def generate(seed):
     trace['write'] = wp
     mode = cfg['mode']
     if mode in ('clean', 'indexed') and s.random() < (0.6 if mode == 'indexed' else 0.3):
-        k = s.choice((['empty_record'] * 4 if mode == 'indexed' else []) + ['v3000wrap', 'v3000wrap', 'no_final_delimiter', 'crlf', 'empty_record', 'empty_record', 'v2000props', 'v2000props', 'rireg', 'v2000extras', 'v2000extras', 'rxn_unsupported_member', 'rxn_unsupported_member', 'mixed_versions', 'mixed_versions', 'bonds_sorted', 'bonds_sorted', 'bonds_sorted'])
+        k = s.choice((['empty_record'] * 4 if mode == 'indexed' else []) + ['v3000wrap', 'v3000wrap', 'no_final_delimiter', 'crlf', 'empty_record', 'empty_record', 'v2000props', 'v2000props', 'rireg', 'v2000extras', 'v2000extras', 'rxn_unsupported_member', 'rxn_unsupported_member', 'mixed_versions', 'mixed_versions', 'bonds_sorted', 'bonds_sorted', 'bonds_sorted', 'v3000_defaults', 'v3000_defaults'])
         if fmt == 'mrv':
             k = 'mrv_compact'
-        if (k == 'v3000wrap' and fmt in ('esdf', 'erdf')) or (k == 'empty_record' and fmt != 'mrv') or \
+        if (k in ('v3000wrap', 'v3000_defaults') and fmt in ('esdf', 'erdf')) or (k == 'empty_record' and fmt != 'mrv') or \
                 (k in ('v2000props', 'v2000extras') and fmt in ('sdf', 'rdf')) or (k in ('rireg', 'rxn_unsupported_member') and fmt in ('rdf', 'erdf')) or \
                 (k == 'mrv_compact' and fmt == 'mrv') or \
                 (k == 'no_final_delimiter' and fmt in ('sdf', 'esdf') and mode == 'clean') or \
@@ -1549,6 +1568,8 @@ def generate(seed):
                 trace['foreign']['mask'] = s.randrange(1, 1 << 12)
             if k == 'bonds_sorted':
                 trace['foreign']['desc'] = s.random() < 0.5
+            if k == 'v3000_defaults':
+                trace['foreign']['picks_mask'] = s.randrange(1, 32)
             if k == 'rxn_unsupported_member':
                 trace['foreign']['member'] = s.randrange(64)
                 trace['foreign']['empty'] = s.random() < 0.4
